@@ -71,17 +71,29 @@ vars == <<cfg, pc, regs, calls>>
 
 PatLam == << <<1, 2>>, Zero >>
 PatMu == << <<-1, 2>>, Zero >>
+(* coefficient lists of the generic low-storage Runge-Kutta / Crank-Nicolson driver: every list of
+   n stages with alpha increments from {1/4, 1/2}, beta from {0, -1/2}, gamma from {1/3, 1} *)
+LsNs == 1..3
+RECURSIVE SeqsOver(_, _)
+SeqsOver(V, n) == IF n = 0 THEN {<<>>} ELSE {<<v>> \o t : v \in V, t \in SeqsOver(V, n - 1)}
+RECURSIVE CumFrom(_, _)
+CumFrom(a, incs) == IF incs = <<>> THEN <<a>> ELSE <<a>> \o CumFrom(RAdd(a, Head(incs)), Tail(incs))
+LowStorageSets(n) == {[alphas |-> CumFrom(Zero, inc), betas |-> be, gammas |-> ga] :
+                        inc \in SeqsOver({<<1, 4>>, <<1, 2>>}, n), be \in SeqsOver({Zero, <<-1, 2>>}, n),
+                        ga \in SeqsOver({<<1, 3>>, One}, n)}
 IsEx(p) == p[1] \in {"ae", "be"}
 Patterns(n) == IF n < SplitFrom THEN SUBSET Valid(n)
                ELSE {S \cup {p \in Valid(n) : ~IsEx(p)} : S \in SUBSET {p \in Valid(n) : IsEx(p)}} \cup
                     {S \cup {p \in Valid(n) : IsEx(p)} : S \in SUBSET {p \in Valid(n) : ~IsEx(p)}}
 Init == /\ \/ \E n \in Ns : \E S \in Patterns(n) :
                  cfg = [id |-> "pattern", n |-> n, tb |-> Tableau(n, S), lam |-> PatLam, mu |-> PatMu]
+           \/ \E n \in LsNs : \E cs \in LowStorageSets(n) :
+                 cfg = [id |-> "lowstorage", n |-> n, tb |-> cs, lam |-> PatLam, mu |-> PatMu]
            \/ \E k \in NamedIds : \E lam \in Lams : \E mu \in Mus :
                  cfg = [id |-> k, n |-> Len(Named[k].b_ex), tb |-> Named[k], lam |-> lam, mu |-> mu]
-        /\ pc = 1 /\ regs = [r \in {"u"} |-> COne] /\ calls = <<>>
+        /\ pc = 1 /\ regs = [r \in {"u", "h"} |-> IF r = "u" THEN COne ELSE CZero] /\ calls = <<>>
 
-Prog == ProgImex(cfg.tb)
+Prog == IF cfg.id = "lowstorage" THEN ProgLowStorage(cfg.tb) ELSE ProgImex(cfg.tb)
 Instr == Prog[pc]
 Set(f, k, v) == [x \in DOMAIN f \cup {k} |-> IF x = k THEN v ELSE f[x]]
 RECURSIVE SumTerms(_)
@@ -128,7 +140,21 @@ Textbook(tb) ==
       im == CSum([j \in 0..(n - 1) |-> CScale(tb.b_im[j + 1], CMul(cfg.mu, Stage(tb, j)))], 0, n - 1)
   IN  CAdd(COne, CAdd(ex, im))
 
-SkipTransparent == Done => Out = Textbook(cfg.tb)
+SkipTransparent == (Done /\ cfg.id # "lowstorage") => Out = Textbook(cfg.tb)
+
+(* the low-storage recurrence, written directly:
+     h_k = F(u_{k-1}) + beta_k h_{k-1},   m_k = (alpha_{k+1} - alpha_k) / 2,
+     u_k = (u_{k-1} + gamma_k h_k + m_k G(u_{k-1})) / (1 - m_k mu)                        (dt = 1) *)
+RECURSIVE LsU(_, _)
+RECURSIVE LsH(_, _)
+LsH(cs, k) == IF k = 0 THEN CZero
+              ELSE CAdd(CMul(cfg.lam, LsU(cs, k - 1)), CScale(cs.betas[k], LsH(cs, k - 1)))
+LsU(cs, k) == IF k = 0 THEN COne
+              ELSE LET m == RMul(<<1, 2>>, RSub(cs.alphas[k + 1], cs.alphas[k]))
+                       up == LsU(cs, k - 1)
+                   IN  CMul(CAdd(up, CAdd(CScale(cs.gammas[k], LsH(cs, k)), CScale(m, CMul(cfg.mu, up)))),
+                            CInv(CAdd(COne, CScale(RNeg(m), cfg.mu))))
+LowStorageRecurrence == (Done /\ cfg.id = "lowstorage") => Out = LsU(cfg.tb, cfg.n)
 
 (* stability functions of the named pairs; z = dt*lam, w = dt*mu *)
 Zc == cfg.lam
@@ -149,7 +175,7 @@ NamedOK == Done =>
 
 (* the driver never evaluates more than the textbook and never calls the solve with a step other
    than the stage's diagonal entry *)
-CallsOK == Done =>
+CallsOK == (Done /\ cfg.id # "lowstorage") =>
   /\ Len(SelectSeq(calls, LAMBDA c : c.k = "Ginv")) = cfg.n - 1
   /\ Len(SelectSeq(calls, LAMBDA c : c.k = "F")) <= cfg.n
   /\ Len(SelectSeq(calls, LAMBDA c : c.k = "G")) <= cfg.n
